@@ -327,6 +327,57 @@ def run(ctx):
             ctx.violation(Finding('R-MISSRC', RP, W, api.stmt_of(c),
                                   'the header declares getattr(var, %r, %s) as missing code but masked cells are filled with %s: '
                                   'whenever the two differ the cells read back as valid data' % (dkey[0], dkey[1], norm(fv) if fv is not None else "the array's own fill_value")))
+    # ---- R-COLORDER: the column-name line and the data columns come from one ordered key list
+    ctx.rule('R-COLORDER', 'the names on the column line are in the order of the data columns (independent variable first, then the dependent variables as written)')
+    name_print = None
+    for st in fn.body:
+        if is_print_to(st) and st.lineno < data_loop.lineno:
+            name_print = st
+    colloop = [st for st in fn.body if isinstance(st, ast.For) and st is not data_loop and any(isinstance(c, ast.Call) and dotted(c.func) == 'vals.append' for c in ast.walk(st))]
+    if name_print is None or not colloop:
+        ctx.undec('R-COLORDER', 'column line', where, 'column-name print or the loop that collects the data columns not found')
+    else:
+        arg = name_print.value.args[0]
+        joined = arg.args[0] if isinstance(arg, ast.Call) and isinstance(arg.func, ast.Attribute) and arg.func.attr == 'join' and arg.args else None
+        lp = colloop[-1]
+        ok_ = False
+        why = 'names: %s ; columns collected in `for %s in %s`' % (norm(joined)[:40] if joined is not None else '?', norm(lp.target), norm(lp.iter)[:30])
+        if isinstance(joined, ast.Name):
+            # names list appended in the same loop as the columns, and seeded with the same first element
+            same_loop = any(isinstance(c, ast.Call) and dotted(c.func) == joined.id + '.append' for c in ast.walk(lp))
+            seed_n = [s2 for s2 in fn.body if isinstance(s2, ast.Assign) and norm(s2.targets[0]) == joined.id and s2.lineno < lp.lineno]
+            seed_v = [s2 for s2 in fn.body if isinstance(s2, ast.Assign) and norm(s2.targets[0]) == 'vals' and s2.lineno < lp.lineno]
+            if same_loop and seed_n and seed_v and 'INDEPENDENT_VARIABLE' in norm(seed_n[-1].value) and 'INDEPENDENT_VARIABLE' in norm(seed_v[-1].value):
+                ok_ = True
+            # or: the names list is literally the iterated sequence with the independent variable in front
+            if not same_loop and seed_n and isinstance(lp.iter, ast.Name) and norm(seed_n[-1].value) in ('[f.INDEPENDENT_VARIABLE] + %s' % lp.iter.id, '[f.INDEPENDENT_VARIABLE] + list(%s)' % lp.iter.id):
+                ok_ = True
+        elif joined is not None and isinstance(lp.iter, ast.Name) and norm(joined) in ('[f.INDEPENDENT_VARIABLE] + %s' % lp.iter.id, '[f.INDEPENDENT_VARIABLE] + list(%s)' % lp.iter.id):
+            ok_ = True
+        if ok_:
+            ctx.ok('R-COLORDER', 'column line', where, why)
+        else:
+            ctx.violation(Finding('R-COLORDER', RP, W, name_print, 'the column names are %s but the data columns are the independent variable followed by the variables of `for %s in %s`: when the '
+                                  'independent variable is not the first variable of the file every name labels another column' % (norm(joined)[:50] if joined is not None else norm(arg)[:50],
+                                                                                                                                  norm(lp.target), norm(lp.iter)[:30])))
+    # ---- R-LODSYM: the lower- and upper-limit-of-detection blocks of the reader use only their own names
+    ctx.rule('R-LODSYM', 'reader: statements that build llod_* use no ulod_* name and vice versa (copy-paste symmetry)')
+    nl = 0
+    for st in iter_stmts(rdf.body):
+        if isinstance(st, (ast.Assign, ast.AugAssign)):
+            tg = st.targets[0] if isinstance(st, ast.Assign) else st.target
+            if isinstance(tg, ast.Name) and tg.id[:5] in ('llod_', 'ulod_'):
+                other = 'ulod_' if tg.id.startswith('llod_') else 'llod_'
+                foreign = sorted(set(n.id for n in ast.walk(st.value) if isinstance(n, ast.Name) and n.id.startswith(other)) |
+                                 set(n.attr for n in ast.walk(st.value) if isinstance(n, ast.Attribute) and n.attr.lower().startswith(other)))
+                nl += 1
+                if foreign:
+                    ctx.violation(Finding('R-LODSYM', RP, 'ffi1001.__init__', st, '%s is built from %s: the %s limit list gets the length/values of the other one, so a header that declares one value per '
+                                          'variable fails the length check and the written file does not re-open' % (tg.id, foreign, 'upper' if other == 'llod_' else 'lower')))
+    if nl:
+        if not any(o['rule'] == 'R-LODSYM' and o['status'] == 'violated' for o in ctx.obligations):
+            ctx.ok('R-LODSYM', 'lod blocks', wrd, '%d statements, each within its own limit' % nl)
+    ctx.floor('limit-of-detection statements', nl, 10)
     # ---- R-MISSFMT: the declared code is written with at least the precision of the data cells that carry it
     ctx.rule('R-MISSFMT', 'the declared missing code is converted to text with at least as many significant digits as the data cells')
     tf0 = [c for c in walk_expr(data_loop) if isinstance(c, ast.Call) and isinstance(c.func, ast.Attribute) and c.func.attr == 'tofile']
